@@ -363,9 +363,27 @@ let op_stmts (args : str list) : str list =
        | OScope -> ["scope"])
   | _ -> ["bad-args"]
 
+(* renderer model: "<hex text>" -> the significant tokens (kind:texthex) the renderer model writes for the statement list
+   the parser model reads from the text | notparsed *)
+let op_strender (args : str list) : str list =
+  match args with
+  | [h] ->
+      (match parse_fb_text (text_of_hex h) with
+       | OParsed [] -> ["emptybody"]
+       | OParsed l when not (list_bodies_ok l) -> ["emptybody"]
+       | OParsed l ->
+           let toks = render_list l in
+           [ "rendered";
+             S.concat " " (List.filter_map (fun (t : token) ->
+               let k = kind_name t.t_kind in
+               if k = "Whitespace" || k = "Newline" || k = "Comment" then None
+               else Some (k ^ ":" ^ hex_of_text t.t_text)) toks) ]
+       | _ -> ["notparsed"])
+  | _ -> ["bad-args"]
+
 let ops : (str * (str list -> str list)) list ref =
   ref [ ("lex", op_lex); ("semtok", op_semtok); ("decode", op_decode); ("lit", op_lit); ("cycle", op_cycle);
-        ("lsp", op_lsp); ("cli", op_cli); ("rule", op_rule); ("expr", op_expr); ("scope", op_scope); ("stmts", op_stmts) ]
+        ("lsp", op_lsp); ("cli", op_cli); ("rule", op_rule); ("expr", op_expr); ("scope", op_scope); ("stmts", op_stmts); ("strender", op_strender) ]
 
 
 let () =
